@@ -248,6 +248,18 @@ def run_masks(shard, rec, B):
 def run_rand(shard, rec, B):
     rng = gen.rng_for(rec)
     Ns = [3, 4, 5, 6, 7, 8] if B.name == "np" else [3, 4, 5]
+    for N in (1, 2, 4):     # zero-length lists stay zero-length lists of the same width
+        mg, mp = O.random_map(rng, N)
+        E = B.PauliList(np.zeros((0, 2 * N), dtype=np.int64), np.zeros(0, dtype=np.int64))
+        ok, _ = rec.attempt("img.empty", [N], lambda: E.transform_by(B.Map(mg, mp)))
+        if ok:
+            rec.check("img.empty", B.np(E.gs).shape == (0, 2 * N) and B.np(E.ps).shape == (0,), ["empty", N], False)
+        if N >= 2:
+            sm = O.random_map(rng, 1)
+            E2 = B.PauliList(np.zeros((0, 2 * N), dtype=np.int64), np.zeros(0, dtype=np.int64))
+            ok, _ = rec.attempt("img.empty", [N, "mask"], lambda: E2.transform_by(B.Map(*sm), mask=_lib_mask(B, [N - 1], N)))
+            if ok:
+                rec.check("img.empty", B.np(E2.gs).shape == (0, 2 * N), ["empty.mask", N], False)
     for t in range(shard["n"]):
         N = Ns[t % len(Ns)]
         mg, mp = O.random_map(rng, N)
